@@ -54,6 +54,7 @@ type interpreter struct {
 	mainPkg      *ssa.Package
 	goDepth      int
 	extCache     map[*ssa.Function]externalFn
+	uniqueCells  map[string]*value // unique.Make handles, see extUniqueMake
 	sampleCtr    int
 	noLazy       bool
 	cutNotes     map[string]bool
